@@ -31,7 +31,7 @@ def depth_families():
     del f["asm_block_nesting"], f["include_chain"]
     f["asm_macro_nesting"] = lambda d: "#ruledef\n{\n    nop => 0x00\n" + "".join("    m%d => asm { m%d }\n" % (i, i + 1) for i in range(d)) + "    m%d => 0x01\n}\nm0\n" % d
     f["fn_call_depth"] = lambda d: "".join("#fn f%d(x) => f%d(x)\n" % (i, i + 1) for i in range(d)) + "#fn f%d(x) => x\n#d8 f0(1)\n" % d
-    f["subrule_nesting"] = lambda d: "#ruledef\n{\n    ld {x: s0} => 0x11 @ x\n}\n" + "".join("#subruledef s%d\n{\n    ({x: s%d}) => x\n}\n" % (i, i + 1) for i in range(d)) + "#subruledef s%d\n{\n    a => 0x01\n}\nld %sa%s\n" % (d, "(" * d, ")" * d)
+    f["subrule_nesting"] = lambda d: "#ruledef\n{\n    ld {x: r0} => 0x11 @ x\n}\n" + "".join("#subruledef r%d\n{\n    ({x: r%d}) => x\n}\n" % (i, i + 1) for i in range(d)) + "#subruledef r%d\n{\n    a => 0x01\n}\nld %sa%s\n" % (d, "(" * d, ")" * d)
     return f
 
 
@@ -48,10 +48,14 @@ def cycle_families():
     def rule_fn_cycle(n):
         return "#fn f(x) => asm { m0 }\n#ruledef\n{\n" + "".join("    m%d => asm { m%d }\n" % (i, i + 1) for i in range(n - 1)) + "    m%d => 0x00 @ f(1)`8\n}\nm0\n" % (n - 1)
     def subrule_left(n):
-        # left-recursive sub-rules: s0 -> {x: s1} ... -> s0
-        return "#ruledef\n{\n    ld {x: s0} => 0x11 @ x\n}\n" + "".join("#subruledef s%d\n{\n    {x: s%d} + => x\n    a => 0x01\n}\n" % (i, (i + 1) % n) for i in range(n)) + "ld a\n"
+        # left-recursive sub-rules: r0 -> {x: r1} ... -> r0   (the tables must not be called s0, s1, ...: those are integer types)
+        return "#ruledef\n{\n    ld {x: r0} => 0x11 @ x\n}\n" + "".join("#subruledef r%d\n{\n    {x: r%d} + => x\n    a => 0x01\n}\n" % (i, (i + 1) % n) for i in range(n)) + "ld a\n"
     def subrule_right(n):
-        return "#ruledef\n{\n    ld {x: s0} => 0x11 @ x\n}\n" + "".join("#subruledef s%d\n{\n    + {x: s%d} => x\n    a => 0x01\n}\n" % (i, (i + 1) % n) for i in range(n)) + "ld + + + a\n"
+        return "#ruledef\n{\n    ld {x: r0} => 0x11 @ x\n}\n" + "".join("#subruledef r%d\n{\n    + {x: r%d} => x\n    a => 0x01\n}\n" % (i, (i + 1) % n) for i in range(n)) + "ld + + + a\n"
+    def subrule_left_fed(n):
+        # the same cycle, with an input that feeds it: the text after the operand is what the left-recursive rule asks for, so the
+        # matcher does try the rule - and re-enters it without consuming anything (finding F14c)
+        return "#ruledef\n{\n    ld {x: r0} => 0x11 @ x\n}\n" + "".join("#subruledef r%d\n{\n    {x: r%d} b => x @ 0x01\n    c => 0x02\n}\n" % (i, (i + 1) % n) for i in range(n)) + "ld c b b\n"
     def const_cycle(n):
         return "".join("c%d = c%d + 1\n" % (i, (i + 1) % n) for i in range(n)) + "#d8 c0\n"
     def include_cycle(n):
@@ -61,6 +65,7 @@ def cycle_families():
     f["rule_fn_cycle"] = rule_fn_cycle
     f["subrule_left_recursion"] = subrule_left
     f["subrule_right_recursion"] = subrule_right
+    f["subrule_left_recursion_fed"] = subrule_left_fed
     f["const_cycle"] = const_cycle
     return f
 
